@@ -33,7 +33,10 @@ func init() {
 				cm["outaxis"] = outaxis
 				cm["n"] = n
 				// the largest batch also handed over as a view into a larger parent batch
-				cm["views"] = n == batchSizes[len(batchSizes)-1]
+				// (not for Div: gorgonia's contiguous and iterator kernels disagree on x/0 - known finding
+				// C03.float-div-by-zero - so a zero divisor in a natively sampled assignment would show as a layout
+				// difference)
+				cm["views"] = n == batchSizes[len(batchSizes)-1] && nodes[0].op != "Div"
 				// ... and lazily transposed (first two axes exchanged), except for models whose first operator is known
 				// to answer differently for lazily transposed operands on the unchanged tree (gorgonia's matrix
 				// product and softmax kernels, PRelu and the recurrent operators' raw-data access; DESIGN 8.3)
